@@ -32,6 +32,7 @@ REGISTRY = {
             {"name": "TestC03Frames", "shards": 8, "shards_thorough": 16},
             {"name": "TestC03Wire", "shards": 4, "shards_thorough": 16},
             {"name": "TestC03Concurrent", "shards": 4, "shards_thorough": 16, "race": True, "crash_is_violation": True},
+            {"name": "TestC03SizeCap", "shards": 1, "crash_is_violation": True},
         ],
         "require": {"c03:concurrent:goroutines>=4:false": 119, "c03:concurrent:goroutines>=4:true": 180, "c03:control:0": 210, "c03:control:1": 219, "c03:control:2": 141, "c03:control:3": 133, "c03:control:4": 111, "c03:control:5": 102, "c03:control:6": 111, "c03:control:7": 104, "c03:control:8": 93, "c03:control:9": 122, "c03:data": 2159, "c03:rejected": 2422, "c03:restamps:1": 600, "c03:restamps:2": 574, "c03:restamps:3": 464, "c03:restamps:4": 512, "c03:wire-entry:Forward/built": 510, "c03:wire-entry:Forward/decoded": 185, "c03:wire-entry:Forward/decoded-restamped": 187, "c03:wire-entry:Forward/restamped": 198, "c03:wire-entry:ForwardAsync/built": 491, "c03:wire-entry:ForwardAsync/decoded": 187, "c03:wire-entry:ForwardAsync/decoded-restamped": 187, "c03:wire-entry:ForwardAsync/restamped": 197, "c03:wire-entry:Reply": 776, "c03:wire-entry:Send": 770, "c03:wire-entry:SendAsync": 798, "c03:wire-entry:SendSECS2": 665, "c03:wire:Forward": 1061, "c03:wire:ForwardAsync": 1063, "c03:wire:Reply": 776, "c03:wire:Send": 770, "c03:wire:SendAsync": 798, "c03:wire:SendSECS2": 665, "c03:wire:active": 2566, "c03:wire:passive": 2588},
     },
@@ -41,6 +42,7 @@ REGISTRY = {
         "trust": "Trusts ref/e37.ParseWhole and ref/fsm.Responder; virtual time (testing/synctest) makes T8 exact; the allocation meter is process-wide TotalAlloc with a 4 MiB threshold against >= 16 MiB claimed.",
         "technique": "property-based testing (rapid): acceptance-predicate differential + metamorphic segmentation invariance on scripted connections in testing/synctest; native go fuzzing (thorough)",
         "tests": [
+            {"name": "TestC03SizeCap", "shards": 1, "crash_is_violation": True},
             {"name": "TestC04Decode", "shards": 8, "shards_thorough": 16},
             {"name": "TestC04Stream", "shards": 8, "shards_thorough": 16},
             {"name": "FuzzC04Frame", "shards": 1, "fuzz": True, "tier": "thorough", "fuzztime": "120s"},
